@@ -42,9 +42,9 @@ def notH (c : Nat) : Bool := c != cHash
 
 /-- `(([^:/?#]+):)?` — the scheme and what follows its colon. -/
 def splitScheme (s : Str) : Option Str × Str :=
-  let pre := s.takeWhile notGenDelim
   match s.dropWhile notGenDelim with
-  | c :: rest => if c = cColon ∧ pre ≠ [] then (some pre, rest) else (none, s)
+  | c :: rest =>
+    if c = cColon ∧ s.takeWhile notGenDelim ≠ [] then (some (s.takeWhile notGenDelim), rest) else (none, s)
   | [] => (none, s)
 
 /-- `(//([^/?#]*))?` -/
@@ -75,12 +75,25 @@ def split (s : Str) : Parts :=
 
 /-! ### 5.3 Component recomposition -/
 
+/-- `if defined(scheme) then append scheme; append ":"` -/
+def schemePart : Option Str → Str
+  | some s => s ++ [cColon]
+  | none => []
+/-- `if defined(authority) then append "//"; append authority` -/
+def authorityPart : Option Str → Str
+  | some a => cSlash :: cSlash :: a
+  | none => []
+/-- `if defined(query) then append "?"; append query` -/
+def queryPart : Option Str → Str
+  | some q => cQuest :: q
+  | none => []
+/-- `if defined(fragment) then append "#"; append fragment` -/
+def fragmentPart : Option Str → Str
+  | some f => cHash :: f
+  | none => []
+
 def recompose (p : Parts) : Str :=
-  (match p.scheme with | some s => s ++ [cColon] | none => []) ++
-  (match p.authority with | some a => cSlash :: cSlash :: a | none => []) ++
-  p.path ++
-  (match p.query with | some q => cQuest :: q | none => []) ++
-  (match p.fragment with | some f => cHash :: f | none => [])
+  schemePart p.scheme ++ authorityPart p.authority ++ p.path ++ queryPart p.query ++ fragmentPart p.fragment
 
 /-! ### 5.2.3 Merge paths -/
 
